@@ -86,6 +86,28 @@ Example C07_rerun_k7c_regression :
   files (snd (snd rerun)) (mf_path r) = files (apply_plan KDeploy w [r] D pl) (mf_path r).
 Proof. vm_compute. repeat split; reflexivity. Qed.
 
+(* the same for a root that only has a legacy-named manifest and whose last file the interrupted
+   deploy removed (defect K7d): the crash leaves the legacy manifest listing the removed file; the
+   re-run finds an empty plan, and with the repaired rule still applies once and writes the empty
+   preferred-name manifest the uninterrupted run would have written *)
+Example C07_rerun_k7d_regression :
+  let r := Build_root (s "codex") [s "h"; s "p"] true in
+  let pa := [s "h"; s "p"; s "a.md"] in
+  let man := FMan (Parsed 1 (s "codex") [(s "a.md", 1)]) in
+  let f : fs := upd (upd (fun _ => None) (legacy_path r) (Some man)) pa (Some (FBytes 1)) in
+  let w := Build_world f [] in
+  let D : list dfile := [] in
+  let pl := plan f D (managed_for_plan w [r] None) in
+  let steps := steps_of_apply f [r] D pl in
+  (* crash after a.md was removed (3 dirs + backup dir, backup, remove = 6 operations) *)
+  let wc := Build_world (cfiles (run_prefix 6 steps (init_state f))) [] in
+  let rerun := deploy_cmd SJsonYes true false None wc [r] D in
+  map c_op pl = [PDelete] /\ files wc pa = None /\ files wc (mf_path r) = None /\
+  fst rerun = [] /\ fst (snd rerun) = OApplied /\
+  files (snd (snd rerun)) (mf_path r) = files (apply_plan KDeploy w [r] D pl) (mf_path r) /\
+  files (snd (snd rerun)) (mf_path r) = Some (new_manifest r []).
+Proof. vm_compute. repeat split; reflexivity. Qed.
+
 Example C07_nonvacuous :
   let r := Build_root (s "codex") [s "h"; s "p"] true in
   let pa := [s "h"; s "p"; s "a.md"] in let pb := [s "h"; s "p"; s "b.md"] in let pc := [s "h"; s "p"; s "c.md"] in
